@@ -1016,4 +1016,8 @@ CASES = [
  dict(name="c20-cache-reload-skips-invalid", ids=["C20"], rule="C20.R5d", subs=[(BW, """          // We do not skip invalidated && empty queue thread contexts as this is very rare,
           // so instead we just add them and expect them to be cleaned in the next iteration
           _active_thread_contexts_cache.push_back(thread_context);""", """          if (thread_context->is_valid()) { _active_thread_contexts_cache.push_back(thread_context); }""")]),
+
+ dict(name="c04-string-flag-not-set-for-char", ids=["C04"], rule="C04.R6a", subs=[("core/DynamicFormatArgStore.h", "                  (mapped_type == fmtquill::detail::type::custom_type) ||\n                  (mapped_type == fmtquill::detail::type::char_type))", "                  (mapped_type == fmtquill::detail::type::custom_type))")]),
+ dict(name="c04-store-clear-keeps-flag", ids=["C04"], rule="C04.R6b", subs=[("core/DynamicFormatArgStore.h", "    _dynamic_arg_list = detail::DynamicArgList{};\n    _has_string_related_type = false;", "    _dynamic_arg_list = detail::DynamicArgList{};")]),
+ dict(name="c04-decoder-does-not-clear", ids=["C04"], rule="C04.R6c", subs=[(CDC, "  args_store.clear();\n  decode_and_store_arg<Args...>(buffer, &args_store);", "  if (sizeof...(Args) > 1) { args_store.clear(); }\n  decode_and_store_arg<Args...>(buffer, &args_store);")]),
 ]
